@@ -17,6 +17,14 @@ class Slotted:
     def __init__(self, a=None, b=None):
         self.a, self.b = a, b
 
+    def __getstate__(self):
+        # needed for pickle protocols 0 and 1
+        return {s: getattr(self, s) for s in self.__slots__ if hasattr(self, s)}
+
+    def __setstate__(self, state):
+        for k, v in state.items():
+            setattr(self, k, v)
+
 
 class Node:
     """linked node: used for shared and cyclic references"""
